@@ -92,11 +92,9 @@ def run(ctx: Ctx):
     def _from_dest_realm(e, depth=3):
         """e is <x>.decode(...) / <x> where x is the request's destination_realm attribute, its
         Destination-Realm AVP, or a local all of whose definitions are."""
-        if isinstance(e, ast.Call) and isinstance(e.func, ast.Attribute) and e.func.attr in ("lower", "casefold") \
-                and not e.args:
-            e = e.func.value            # case normalisation of the name (see the key-case rule)
-        if isinstance(e, ast.Call) and isinstance(e.func, ast.Attribute) and e.func.attr == "decode":
-            e = e.func.value
+        while isinstance(e, ast.Call) and isinstance(e.func, ast.Attribute) \
+                and e.func.attr in ("lower", "casefold", "decode"):
+            e = e.func.value            # decoding / case normalisation of the name, in any order
         t = ast.unparse(e)
         if t in (f"{msg}.destination_realm", f"getattr({msg}, 'destination_realm', None)"):
             return True
@@ -138,6 +136,37 @@ def run(ctx: Ctx):
                  f"implementation (or a plain Message built from AVPs) has no such attribute, its "
                  f"Destination-Realm AVP is ignored and the request is routed - and sent - by the "
                  f"node's own realm")
+    # ... also of a known command decoded with plain_msg=True: it is an instance of the command's
+    # base class, which HAS an `avp_def` attribute - an empty one - so "has no avp_def" is the
+    # wrong test for "has no attribute definitions"
+    ctx.inst(cons + "#plain-decoded")
+    guards = [ast.unparse(x.test).replace('"', "'") for x in A.walk_no_nested(f.node) if isinstance(x, ast.If)
+              and "avp_def" in ast.unparse(x.test)]
+    if src_avp and guards and all(f"hasattr({msg}, 'avp_def')" in t_ and "getattr" not in t_ for t_ in guards):
+        ctx.fail(cons + "#plain-decoded", f.loc(), f"the AVP list is consulted only for messages that have no "
+                 f"`avp_def` attribute at all ({guards[0][:70]}): a request decoded with plain_msg=True is "
+                 f"an instance of its command's base class, whose avp_def is the empty tuple - its "
+                 f"Destination-Realm AVP is still ignored")
+    # the connection of the selected peer is read after the selection (a user callback may run in
+    # between): it may be gone, and that is a routing outcome (NotRoutable), not an AttributeError
+    ctx.inst("route_request:selected-connection-checked")
+    cdefs = [n for n in g.nodes if n.kind == "stmt" and isinstance(n.ast, ast.Assign)
+             and isinstance(n.ast.value, ast.Attribute) and n.ast.value.attr == "connection"
+             and isinstance(n.ast.targets[0], ast.Name)]
+    for cd in cdefs:
+        cv_ = cd.ast.targets[0].id
+        uses = [n for n in g.reach([d for l, d in cd.succ if l not in ("exc", "raise")])
+                if n.kind in ("stmt", "test") and n.ast is not None and any(
+                    isinstance(x, ast.Attribute) and isinstance(x.value, ast.Name) and x.value.id == cv_
+                    for x in ast.walk(n.ast))]
+        for u in uses:
+            fx = must_facts(g, at, u)
+            if (cv_, "is", None, False) not in fx and (cv_, "truthy", None, True) not in fx:
+                ctx.fail("route_request:selected-connection-checked", g.loc(u),
+                         f"`{u.text(60)}` uses `{cv_}` (= `{ast.unparse(cd.ast.value)}`, read after the "
+                         f"selection) without a check for None: a connection removed since the peers were "
+                         f"looked at makes send_request fail with AttributeError instead of NotRoutable")
+                break
     # the request's realm replaces the node's own whenever it is PRESENT (not: whenever it is
     # true - an empty Destination-Realm names no realm this node serves)
     for n in nondefault:
@@ -259,7 +288,29 @@ def run(ctx: Ctx):
     cons = "route_request:raises-only-NotRoutable"
     rs = set(E_.raises(f))
     ctx.inst(cons, sample=sorted(rs))
-    for e_ in sorted(rs - {"NotRoutable", "ANY", "UnicodeDecodeError"}):
+    # Reading `<msg>.avps` of a message WITH attribute definitions generates the AVPs from the
+    # attributes, which can fail; route_request reads the list only of messages without
+    # definitions (`not getattr(msg, "avp_def", None)` / `not hasattr(msg, "avp_def")`), for which
+    # the generator has nothing to do.  The analysis does not see that an empty definition list
+    # generates nothing, so what only DefinedMessage.avps can raise is taken out - provided every
+    # read of the list sits under that guard.
+    par_rr = A.parents(f.node)
+    reads = [x for x in A.walk_no_nested(f.node) if isinstance(x, ast.Attribute) and x.attr == "avps"
+             and A.dotted(x.value) == msg]
+
+    def _under_no_defs_guard(x):
+        while x in par_rr:
+            x = par_rr[x]
+            if isinstance(x, ast.If):
+                t = ast.unparse(x.test).replace('"', "'")
+                if f"not getattr({msg}, 'avp_def', None)" in t or f"not hasattr({msg}, 'avp_def')" in t:
+                    return True
+        return False
+    gen_only = set()
+    dm_avps = model.cls("message._base", "DefinedMessage").methods.get("avps")
+    if reads and dm_avps is not None and all(_under_no_defs_guard(x) for x in reads):
+        gen_only = set(E_.raises(dm_avps))
+    for e_ in sorted(rs - {"NotRoutable", "ANY"} - gen_only):
         ctx.fail(cons, f.loc(), f"route_request can raise {e_} ({'; '.join(E_.why(f, e_))}): a request "
                  f"that cannot be routed fails with something else than the not-routable error")
         break
